@@ -23,6 +23,7 @@ RULE = (
 ASSUMPTIONS = [
     "membership is asserted only at probe points farther than 1e-6 x size from every boundary involved",
     "a ValueError from a set operation whose exact result is not a single simply-connected polygon is the documented behaviour, not a violation",
+    "a set-operation result whose area is below 1e-9 of the operands' or that has a feature (vertex-to-edge distance) below 1e-6 of its size - outlines touching along a line - is a degenerate sliver and the case is discarded",
 ]
 LEVEL_TEXT = "Each case checks every probe point and every intermediate polygon; Hypothesis varies shapes, operation chains and transform parameters."
 LEVEL_NOTE = "Trusted: the harness's winding-number test, shoelace area, affine maps; tolerance 1e-9 on areas."
@@ -155,6 +156,28 @@ def apply_map(tr, q, pts_before):
     return (q - o) * np.array([tr["fx"], tr["fy"]]) + o
 
 
+def min_feature(pts):
+    """smallest distance between a vertex and a non-incident edge of the closed polygon (thin slivers / spikes -> ~0)"""
+    p = np.asarray(pts, dtype=float)
+    if np.allclose(p[0], p[-1]):
+        p = p[:-1]
+    n = len(p)
+    if n < 4:
+        return float("inf") if n < 3 else 0.0
+    a = p
+    b = np.roll(p, -1, axis=0)
+    best = np.inf
+    for i in range(n):
+        ab = b - a
+        L2 = np.einsum("ij,ij->i", ab, ab)
+        t = np.clip(np.einsum("ij,ij->i", p[i] - a, ab) / np.where(L2 > 0, L2, 1), 0, 1)
+        d = np.linalg.norm(p[i] - (a + t[:, None] * ab), axis=1)
+        d[i] = np.inf
+        d[(i - 1) % n] = np.inf
+        best = min(best, float(d.min()))
+    return best
+
+
 def stored_ok(res, poly, what):
     pts = poly.points
     if not np.allclose(pts[0], pts[-1]):
@@ -210,6 +233,12 @@ def check_case(spec):
                 res.fail("C18.setop_rejected", f"{op['op']} of two overlapping convex shapes raised: {exc}")
             res.label("set operation rejected (ValueError)")
             break
+        if abs(orc.shoelace(Rp.points)) < 1e-9 * min(abs(orc.shoelace(before_P)), abs(orc.shoelace(before_O))) or min_feature(Rp.points) < 1e-6 * size:
+            # two outlines that touch along (almost) a line: the exact result is empty, a sliver of width ~1e-8 or carries
+            # zero-width spikes; its area, orientation and validity under a further transform are rounding noise, so nothing
+            # meaningful can be asserted about it (found by the thorough tier: 22 of 96000 cases)
+            res.label("degenerate sliver result (discarded)")
+            return res
         if not np.array_equal(P.points, before_P) or not np.array_equal(O.points, before_O):
             res.fail("C18.mutated_operand", f"{op['op']} ({op['via']}) modified an operand")
         if np.shares_memory(Rp.points, P.points) or np.shares_memory(Rp.points, O.points):
